@@ -199,7 +199,7 @@ impl Builder {
             }
             Cmd::Notify { id, tid, tag, val } => {
                 let c: Cmd_ =
-                    Command::notify_shell(VOp { o: [inst, *tid, 0], tag: *tag, val: *val }).into();
+                    Command::notify_shell(VOp { o: [inst, *tid, 0], tag: *tag, val: *val, live: Default::default() }).into();
                 self.reg(*id, &c);
                 c
             }
@@ -260,7 +260,7 @@ impl Builder {
             R(RB),
             S(SB),
         }
-        let first = VOp { o: stamp(), tag: root.tag, val: root.val };
+        let first = VOp { o: stamp(), tag: root.tag, val: root.val, live: Default::default() };
         let mut b = if root.k == "req" {
             B::R(erase_r(Command::request_from_shell(first)))
         } else {
@@ -275,13 +275,13 @@ impl Builder {
                 let stamp = stamp.clone();
                 let f = f.clone();
                 move |x: u32| -> SB {
-                    let s = Command::stream_from_shell(VOp { o: stamp(), tag, val: apply_f(&f, x) });
+                    let s = Command::stream_from_shell(VOp { o: stamp(), tag, val: apply_f(&f, x), live: Default::default() });
                     if itag == 0 {
                         erase_s(s)
                     } else {
                         let stamp = stamp.clone();
                         erase_s(s.then_request(move |y| {
-                            Command::request_from_shell(VOp { o: stamp(), tag: itag, val: y })
+                            Command::request_from_shell(VOp { o: stamp(), tag: itag, val: y, live: Default::default() })
                         }))
                     }
                 }
@@ -290,12 +290,12 @@ impl Builder {
                 (B::R(rb), "map") => B::R(erase_r(rb.map(move |x| apply_f(&f, x)))),
                 (B::R(rb), "then_stream") => B::S(erase_s(rb.then_stream(inner))),
                 (B::R(rb), _) => B::R(erase_r(rb.then_request(move |x| {
-                    Command::request_from_shell(VOp { o: stamp(), tag, val: apply_f(&f, x) })
+                    Command::request_from_shell(VOp { o: stamp(), tag, val: apply_f(&f, x), live: Default::default() })
                 }))),
                 (B::S(sb), "map") => B::S(erase_s(sb.map(move |x| apply_f(&f, x)))),
                 (B::S(sb), "then_stream") => B::S(erase_s(sb.then_stream(inner))),
                 (B::S(sb), _) => B::S(erase_s(sb.then_request(move |x| {
-                    Command::request_from_shell(VOp { o: stamp(), tag, val: apply_f(&f, x) })
+                    Command::request_from_shell(VOp { o: stamp(), tag, val: apply_f(&f, x), live: Default::default() })
                 }))),
             };
         }
@@ -399,7 +399,7 @@ fn leaf_future(
 ) -> BoxFuture<'static, u32> {
     match leaf {
         Leaf::Req { tag, src, l } => {
-            let op = VOp { o: env.stamp(), tag: *tag, val: env.src(src) };
+            let op = VOp { o: env.stamp(), tag: *tag, val: env.src(src), live: Default::default() };
             if *l {
                 env.lctx.as_ref().expect("no capability context").request_from_shell(op).boxed()
             } else {
@@ -455,12 +455,12 @@ pub fn run_script(
                 }
                 Instr::Notify { tag, src } => {
                     let val = env.src(src);
-                    ctx.notify_shell(VOp { o: env.stamp(), tag: *tag, val });
+                    ctx.notify_shell(VOp { o: env.stamp(), tag: *tag, val, live: Default::default() });
                     pc += 1;
                 }
                 Instr::Req { tag, src, dst, l } => {
                     let val = env.src(src);
-                    let op = VOp { o: env.stamp(), tag: *tag, val };
+                    let op = VOp { o: env.stamp(), tag: *tag, val, live: Default::default() };
                     let v = if *l {
                         env.lctx.as_ref().expect("no capability context").request_from_shell(op).await
                     } else {
@@ -471,7 +471,7 @@ pub fn run_script(
                 }
                 Instr::Open { tag, src, s, l } => {
                     let val = env.src(src);
-                    let op = VOp { o: env.stamp(), tag: *tag, val };
+                    let op = VOp { o: env.stamp(), tag: *tag, val, live: Default::default() };
                     let st: BoxStream<'static, u32> = if *l {
                         env.lctx.as_ref().expect("no capability context").stream_from_shell(op).boxed()
                     } else {
